@@ -188,6 +188,11 @@ func IntProps(propContainer map[string]object.PanObject) map[string]object.PanOb
 			) object.PanObject {
 				self, other, err := checkIntInfixArgs(args, "**", object.NewPanInt(1))
 				if err == nil {
+					// exact integer power (float64 cannot represent results above 2^53)
+					if p, ok := intPow(self.Value, other.Value); ok {
+						// NOTE: Int's descendants also call this
+						return object.NewInheritedInt(args[0].Proto(), p)
+					}
 					res := math.Pow(float64(self.Value), float64(other.Value))
 					// check if f is integer
 					if math.Floor(res) == res {
@@ -532,4 +537,47 @@ func intIter(i *object.PanInt) object.BuiltInFunc {
 		yieldNum++
 		return yielded
 	}
+}
+
+// intPow returns base**exp computed exactly in int64.
+// ok is false if exp is negative or the result overflows int64.
+func intPow(base, exp int64) (int64, bool) {
+	if exp < 0 {
+		return 0, false
+	}
+
+	result := int64(1)
+	for exp > 0 {
+		if exp&1 == 1 {
+			r, ok := mulInt64(result, base)
+			if !ok {
+				return 0, false
+			}
+			result = r
+		}
+		exp >>= 1
+		if exp > 0 {
+			b, ok := mulInt64(base, base)
+			if !ok {
+				return 0, false
+			}
+			base = b
+		}
+	}
+	return result, true
+}
+
+// mulInt64 returns a*b and whether the product fits in int64.
+func mulInt64(a, b int64) (int64, bool) {
+	if a == 0 || b == 0 {
+		return 0, true
+	}
+	if (a == -1 && b == math.MinInt64) || (b == -1 && a == math.MinInt64) {
+		return 0, false
+	}
+	c := a * b
+	if c/b != a {
+		return 0, false
+	}
+	return c, true
 }
